@@ -1,4 +1,5 @@
 import PsVerif.Model.Admit
+import PsVerif.Model.ChanCap
 /-
 C11  Incoming requests are admitted only when every policy condition holds.
 
@@ -82,5 +83,58 @@ theorem C11_violated_wrapping_amount :
     reqMsat { swapOut := false, version := 7, asset := "", network := "regtest", scidOk := true, pubkeyOk := true,
               assetOk := true, networkOk := true, amount := 18446744073709652, premiumLimit := 0 } = 100384 := by
   decide
+
+/-! ### what the adapters report as the channel's capacity (the `spendable` / `receivable` of `NodeCfg`)
+
+`C11_sound` says "amount ≤ spendable/receivable"; these say that the figure itself is at most what the channel
+side holds above its reserve — the link that was missing when both adapters wrapped around below the reserve
+(/repo fix 112d7d5, found by a reviewing sub-agent; slice `chancap` runs the REAL LND adapter over a fake gRPC
+node and the CLN channel arithmetic on the same inputs). -/
+
+/-- lnd: never more than balance − reserve, and nothing at or below the reserve (balances up to 2^53 sat) -/
+theorem C11_lnd_capacity (bal : Int) (res : Nat) (hb : bal < 9007199254740992) :
+    (lndAboveReserveMsat bal res : Int) = (if bal ≤ (res : Int) then 0 else (bal - res) * 1000)
+    ∧ (bal ≤ (res : Int) → lndAboveReserveMsat bal res = 0) := by
+  unfold lndAboveReserveMsat wrapU64
+  by_cases h0 : bal ≤ 0
+  · rw [if_pos h0]
+    have h2 : bal ≤ (res : Int) := by omega
+    rw [if_pos h2]
+    exact ⟨rfl, fun _ => rfl⟩
+  · rw [if_neg h0]
+    by_cases h1 : bal.toNat ≤ res
+    · rw [if_pos h1]
+      have h2 : bal ≤ (res : Int) := by omega
+      rw [if_pos h2]
+      exact ⟨rfl, fun _ => rfl⟩
+    · rw [if_neg h1]
+      have hlt : ¬ bal ≤ (res : Int) := by omega
+      have hm : (bal.toNat - res) * 1000 % 18446744073709551616 = (bal.toNat - res) * 1000 := by
+        apply Nat.mod_eq_of_lt; omega
+      rw [hm, if_neg hlt]
+      refine ⟨?_, fun h => absurd h hlt⟩
+      have : ((bal.toNat - res : Nat) : Int) = bal - res := by omega
+      rw [Int.natCast_mul, this]
+      rfl
+
+/-- CLN: lightningd's figure when it is positive, otherwise at most what the side holds above its reserve -/
+theorem C11_cln_capacity (rep total toUs res : Nat) :
+    (rep > 0 → clnSpendableMsat rep toUs res = rep ∧ clnReceivableMsat rep total toUs res = rep)
+    ∧ (rep = 0 → clnSpendableMsat rep toUs res = toUs - res ∧ clnReceivableMsat rep total toUs res = total - toUs - res) := by
+  unfold clnSpendableMsat clnReceivableMsat
+  constructor
+  · intro h; simp [h]
+  · intro h; subst h
+    simp only [Nat.lt_irrefl, if_false, gt_iff_lt]
+    constructor
+    · split <;> omega
+    · split
+      · omega
+      · split <;> omega
+
+/-- the rule before the fix, at the point that matters: remote balance 0, reserve 10 000 sat — "receivable"
+    18 446 744 073 699 551 616 msat -/
+theorem C11_old_capacity_wraps :
+    lndAboveReserveMsatOld 0 10000 = 18446744073699551616 ∧ lndAboveReserveMsat 0 10000 = 0 := by decide
 
 end PsVerif.Props.C11
